@@ -524,6 +524,17 @@ func c11prop(ev *evid.Rec) func(rt *rapid.T) {
 						mutated(ex)
 						return
 					}
+					if rapid.IntRange(0, 5).Draw(rt, "belowMissingFolder") == 0 {
+						// the folder named in the path is not there (any more - somebody deleted or renamed it): whatever the server
+						// answers, it does not bring the missing folder back; the model stays as it is
+						ghost := rapid.SampledFrom([]string{"no such folder", "deleted meanwhile", "Uploads gone"}).Draw(rt, "ghost")
+						if _, ok := d.kids[ghost]; ok {
+							rt.Skip()
+						}
+						rec("new-folder below the missing folder %v/%q", p, ghost)
+						s.c.Request(hlref.TranNewFolder, nameFields(append(append([]string{}, p...), ghost), &fnode{name: "below", kind: "dir"})...)
+						return
+					}
 					name := s.genName("name", d, 255)
 					rec("new-folder %v/%q", p, name)
 					nd := &fnode{name: name, kind: "dir", kids: map[string]*fnode{}}
